@@ -111,7 +111,7 @@ LINTS = ("; shared shape lints on the property's anchor files (sa/lints.py): dea
          "unit conversion outside its flag, zero treated as missing, incomplete cache key, stale derived attribute, pose-dependent divisor, in-place write to caller arrays, "
          "tolerance-gate angle bands, sign canonicalisation by an own component or of whole rows, first-call latches, frozen positional signatures, names bound nowhere, "
          "subclass-preserving conversions followed by overloaded operators, NaN constants written into computations, unrestored process-wide settings, memoised accessors of "
-         "mutable state%s, "
+         "mutable state, two-way selection by mask arithmetic over divisions%s, "
          "each with an embedded positive example that must fire on every run")
 EXTRA = {
  "C01": "; IDENT.rotate on 3-by-N column arrays",
